@@ -18,7 +18,7 @@ from .common import (bound_args, call_name, enclosing_loops, iteration_segments,
                      reaching_value, short, stmt_contains)
 from .c17 import map_stores, returned_map_name
 
-FLOORS = {'C03.Q1': 8, 'C03.Q2': 2, 'C03.Q3': 5}
+FLOORS = {'C03.Q1': 4, 'C03.Q2': 2, 'C03.Q3': 5}
 
 ALGS = ['BatchProcessing.run', 'QueueProcessing.run', 'DynamicSchedulingFromPlan.run',
         'GreedySchedulingFromPlan.run']
@@ -144,6 +144,15 @@ def gate_on_path(repo, canon, pc, plogic, f, fr, p, i, key, T):
         unf = 'seq[elem(%s) for %s if (not Cluster.is_task_finished(elem(%s)))]' % (s, s, s)
         if Lit('empty(%s)' % unf, True) in must or Lit('truthy(%s)' % unf, False) in must:
             return 'all()'
+    # (b3) "as many finished predecessors as predecessors":  sum(1 for p in S if finished(p)) == len(S)
+    for s in srcs:
+        cnt = 'sum(seq[1 for %s if Cluster.is_task_finished(elem(%s))])' % (s, s)
+        a_, b_ = sorted(['len(%s)' % s, cnt])
+        if Lit('%s == %s' % (a_, b_), True) in must:
+            return 'counting'
+        from ..norm import lit_lt
+        if lit_lt(cnt, 'len(%s)' % s).neg() in must:
+            return 'counting'
     # (c) counting idiom: not (count < len(pred))
     for e in reversed(p.events[:i]):
         if e.kind != 'test':
